@@ -118,3 +118,30 @@ fn replay_settings_gate() {
     let cas: Cas<String> = Cas::open(dir.path(), cfg(2, false)).unwrap();
     assert_eq!(cas.get(&"a".to_string()).unwrap().unwrap().as_ref(), b"one");
 }
+
+// First-time initialisation over a partially created CAS tree (what a killed earlier initialisation leaves behind: no
+// settings file yet, some of the pre-created directories): the open must succeed and leave EVERY leaf directory in
+// place - afterwards puts never create directories again.
+#[cfg(test)]
+#[test]
+fn replay_precreate_restart() {
+    let v = rv::load();
+    let existing: Vec<String> = v["existing"].as_array().map(|a| a.iter().filter_map(|x| x.as_str().map(|s| s.to_string())).collect()).unwrap_or_default();
+    let dir = tempfile::tempdir().unwrap();
+    std::fs::create_dir_all(dir.path().join("staging")).unwrap();
+    std::fs::create_dir_all(dir.path().join("cas")).unwrap();
+    for e in &existing {
+        std::fs::create_dir_all(dir.path().join("cas").join(e)).unwrap();
+    }
+    let cas: Cas<String> = Cas::open(dir.path(), cfg(2, true)).expect("first-time initialisation over a partial tree");
+    let mut missing = Vec::new();
+    for i in 0..256u32 {
+        for j in 0..256u32 {
+            let p = dir.path().join("cas").join(format!("{i:02x}")).join(format!("{j:02x}"));
+            if !p.is_dir() { missing.push(format!("{i:02x}/{j:02x}")); }
+        }
+    }
+    assert!(missing.is_empty(), "after a successful first-time initialisation {} leaf directories are missing (e.g. cas/{}): every later put hashing there fails",
+            missing.len(), missing[0]);
+    drop(cas);
+}
